@@ -29,7 +29,7 @@ package mcp
 //@   final[C16] supportedVersions, defaultProtocolVersion
 //@   final[C06,C20] sessionStates
 //@   invariant self.sessionStates != nil
-//@   invariant[C16 default-version-is-supported] inslice(self.supportedVersions, self.defaultProtocolVersion)
+//@   invariant[C16,C14 default-version-is-supported] inslice(self.supportedVersions, self.defaultProtocolVersion)
 //@
 //@ func lifecycleManager.withProtocolVersion
 //@   requires[C16] inslice(m.supportedVersions, version)
@@ -38,11 +38,11 @@ package mcp
 //@
 //@ func lifecycleManager.selectSupportedVersion
 //@   pure
-//@   ensures[C16 requested-version-when-supported] inslice(m.supportedVersions, protocolVersion) ==> result == protocolVersion
-//@   ensures[C16 default-version-otherwise] !inslice(m.supportedVersions, protocolVersion) ==> result == m.defaultProtocolVersion
-//@   ensures[C16 never-an-unsupported-version] inslice(m.supportedVersions, result)
-//@   loop 1 invariant[C16] forall j int :: 0 <= j && j <= rangeindex ==> m.supportedVersions[j] != protocolVersion
-//@   loop 1 invariant[C16] 0 - 1 <= rangeindex && rangeindex < len(m.supportedVersions)
+//@   ensures[C16,C14 requested-version-when-supported] inslice(m.supportedVersions, protocolVersion) ==> result == protocolVersion
+//@   ensures[C16,C14 default-version-otherwise] !inslice(m.supportedVersions, protocolVersion) ==> result == m.defaultProtocolVersion
+//@   ensures[C16,C14 never-an-unsupported-version] inslice(m.supportedVersions, result)
+//@   loop 1 invariant[C16,C14] forall j int :: 0 <= j && j <= rangeindex ==> m.supportedVersions[j] != protocolVersion
+//@   loop 1 invariant[C16,C14] 0 - 1 <= rangeindex && rangeindex < len(m.supportedVersions)
 //@
 //@ type promptManager
 //@   ctor newPromptManager
@@ -79,7 +79,7 @@ package mcp
 //@
 //@ func lifecycleManager.buildInitializeResponse
 //@   pure
-//@   ensures[C16 echoes-negotiated-version] result.ProtocolVersion == protocolVersion
+//@   ensures[C16,C14 echoes-negotiated-version] result.ProtocolVersion == protocolVersion
 //@   ensures[C16 configured-name-and-version] result.ServerInfo.Name == m.serverInfo.Name && result.ServerInfo.Version == m.serverInfo.Version
 //@   ensures[C16] (result.Capabilities.Tools != nil) <==> istype(m.capabilities["tools"], map[string]interface{})
 //@   ensures[C16] (result.Capabilities.Resources != nil) <==> istype(m.capabilities["resources"], map[string]interface{})
@@ -91,11 +91,11 @@ package mcp
 //@   ensures[C16] result1 == nil
 //@   ensures[C16,C14 answers-with-a-supported-version] initParamsOK(req) ==> istype(result, InitializeResult) && inslice(m.supportedVersions, result.(InitializeResult).ProtocolVersion)
 //@   ensures[C16,C14 answers-with-the-requested-version-when-supported] initParamsOK(req) && inslice(m.supportedVersions, req.Params.(map[string]interface{})["protocolVersion"].(string)) ==> result.(InitializeResult).ProtocolVersion == req.Params.(map[string]interface{})["protocolVersion"].(string)
-//@   ensures[C16 answers-with-configured-identity] initParamsOK(req) ==> result.(InitializeResult).ServerInfo.Name == m.serverInfo.Name && result.(InitializeResult).ServerInfo.Version == m.serverInfo.Version
-//@   ensures[C16 tools-capability-always-advertised] initParamsOK(req) ==> result.(InitializeResult).Capabilities.Tools != nil
-//@   ensures[C16 prompts-capability-iff-registered] initParamsOK(req) ==> ((result.(InitializeResult).Capabilities.Prompts != nil) <==> (m.promptManager != nil && len(m.promptManager.prompts) > 0))
-//@   ensures[C16 resources-capability-iff-registered] initParamsOK(req) ==> ((result.(InitializeResult).Capabilities.Resources != nil) <==> (m.resourceManager != nil && len(m.resourceManager.resourcesOrder) > 0))
-//@   ensures[C16,C03 bad-params-are-invalid-params] !initParamsOK(req) ==> istype(result, *JSONRPCError) && result.(*JSONRPCError).Error.Code == ErrCodeInvalidParams && result.(*JSONRPCError).ID == req.ID
+//@   ensures[C16,C14 answers-with-configured-identity] initParamsOK(req) ==> result.(InitializeResult).ServerInfo.Name == m.serverInfo.Name && result.(InitializeResult).ServerInfo.Version == m.serverInfo.Version
+//@   ensures[C16,C14 tools-capability-always-advertised] initParamsOK(req) ==> result.(InitializeResult).Capabilities.Tools != nil
+//@   ensures[C16,C14 prompts-capability-iff-registered] initParamsOK(req) ==> ((result.(InitializeResult).Capabilities.Prompts != nil) <==> (m.promptManager != nil && len(m.promptManager.prompts) > 0))
+//@   ensures[C16,C14 resources-capability-iff-registered] initParamsOK(req) ==> ((result.(InitializeResult).Capabilities.Resources != nil) <==> (m.resourceManager != nil && len(m.resourceManager.resourcesOrder) > 0))
+//@   ensures[C16,C14,C03 bad-params-are-invalid-params] !initParamsOK(req) ==> istype(result, *JSONRPCError) && result.(*JSONRPCError).Error.Code == ErrCodeInvalidParams && result.(*JSONRPCError).ID == req.ID
 
 // ---------------------------------------------------------------------------
 // client.go — C16 (client state machine).  netops counts operations handed to
